@@ -16,6 +16,7 @@ def parseEv (j : Json) : Except String Ev := do
     let tps ← (← getArr j "tps").toList.mapM ConfigSvcDriver.parseRaw
     match out with
     | "raises" => pure (.tick (.raises (if (← getBool j "base") then .base else .exc)) tps)
+    | "before_send" => pure (.tick (.beforeSend (if (← getBool j "base") then .base else .exc)) tps)
     | "garbage" => pure (.tick .garbage tps)
     | "answer" =>
       let rt : RespType := match (← getInt j "rt") with
@@ -24,6 +25,7 @@ def parseEv (j : Json) : Except String Ev := do
         | _ => .other
       pure (.tick (.answer rt (← getInt j "ts") (← getStr j "hash")) tps)
     | _ => throw s!"unknown stub outcome {out}"
+  | "testFails" => pure .testFails
   | "stop" => pure .stop
   | "flush" => pure .flush
   | _ => throw s!"unknown event {ev}"
